@@ -100,6 +100,16 @@ T = {
  "C28-r2m2": ("C28", "unknown input-object key scan only runs if the object has more keys than the type has fields", "object with an undeclared key that omits at least as many declared fields", ""),
  "C22-r2m1": ("C22", "DiagnosticList::sort becomes sort_unstable_by_key", "more than 20 diagnostics with two different diagnostics at the same offset (e.g. a variable that is unused and of an undefined type)", ""),
  "C22-r2m2": ("C22", "field-merge argument check iterates the lookup index (a HashMap above 20 arguments)", "two selections with the same response key, more than 20 arguments, two conflicting arguments", ""),
+ "C01-r2m1": ("C01", "ty.rs parse: `Some(_)` and `None` arms merged into `_ => Err(Some(p.pop()))`", "token limit exhausted between the `[` of a list type and the next significant token", ""),
+ "C01-r2m2": ("C01", "object_field: early return for a missing value between the recursion counter's increment and decrement", "`{ f(arg: {a: b: 1}) }`: an object field's colon directly followed by `name :` (trips the unbalanced-counter assertion)", ""),
+ "C05-r2m1": ("C05", "scalar_type_extension no longer requires directives", "`extend scalar Date` with nothing after the name", ""),
+ "C05-r2m2": ("C05", "interface_type_extension parses directives before implements", "interface extension with both an implements list and directives", ""),
+ "C08-r2m1": ("C08", "can_be_block_string counts only spaces (not tabs) as common indentation", "multi-line description whose every non-blank line starts with a tab", ""),
+ "C08-r2m2": ("C08", "\\uXXXX escape of control characters formatted in decimal", "quoted string containing U+000B or U+000E..U+001F", ""),
+ "C11-r2m1": ("C11", "Name::location returns None when start_offset == 0", "a parsed name at byte offset 0 of its file (standalone Type::parse / FieldSet::parse)", "C11 standalone part (added before this seed was evaluated)"),
+ "C11-r2m2": ("C11", "get_line_column_range fast path computes the end column from the byte length", "a located text without line terminator that contains a multi-byte character, range end inspected", "C11 line/column ranges of every node (added before this seed was evaluated)"),
+ "C18-r2m1": ("C18", "Schema::type_field returns __typename for scalar, enum and input object types too", "fragment with a scalar / enum / input type condition selecting __typename", ""),
+ "C18-r2m2": ("C18", "validate_inline_fragment drops the fallback to the parent type for fragments without type condition", "`... { }` or `... @include(if: $c) { }` with an undefined variable or a missing sub-selection below it", ""),
  "C33-m2": ("C33", "collect_fields: a fragment spread's fields replace nothing but are not merged into an already collected key", "same composite response key twice, the later occurrence from a named fragment with an extra sub-field", ""),
 }
 
